@@ -59,3 +59,10 @@ def check_c07(io, time_budget=120):
         "increment": lambda d: eq(d["out"], M.increment_le(_b(d["in"]))),
     }
     return _run(io, handlers, time_budget, "C07")
+
+
+def check_c12(io, time_budget=120):
+    def h(d):
+        want = M.kdf_derive(d["len"], int(d["id"]), _b(d["ctx"]), _b(d["key"]))
+        return (d["out"] == want.hex(), want.hex())
+    return _run(io, {"kdf": h}, time_budget, "C12")
